@@ -244,9 +244,16 @@ Home(ax) == [ax EXCEPT !.cur = 0, !.off = 0, !.k = TRUE]
 
 HandleG28(fs, c) ==
     LET all == ~(Seen(c, "X") \/ Seen(c, "Y") \/ Seen(c, "Z"))
-    IN  [fs EXCEPT !.X = IF all \/ Seen(c, "X") THEN Home(fs.X) ELSE fs.X,
-                   !.Y = IF all \/ Seen(c, "Y") THEN Home(fs.Y) ELSE fs.Y,
-                   !.Z = IF all \/ Seen(c, "Z") THEN Home(fs.Z) ELSE fs.Z]
+        hx == all \/ Seen(c, "X")
+        hy == all \/ Seen(c, "Y")
+        hz == all \/ Seen(c, "Z")
+    IN  \* while excluding, the remembered physical position follows the homing move
+        [fs EXCEPT !.X = IF hx THEN Home(fs.X) ELSE fs.X,
+                   !.Y = IF hy THEN Home(fs.Y) ELSE fs.Y,
+                   !.Z = IF hz THEN Home(fs.Z) ELSE fs.Z,
+                   !.lastX = IF fs.exc /\ hx THEN 0 ELSE fs.lastX,
+                   !.lastY = IF fs.exc /\ hy THEN 0 ELSE fs.lastY,
+                   !.lastZ = IF fs.exc /\ hz THEN 0 ELSE fs.lastZ]
 
 \* setLogicalOffsetPosition
 SetOffset(ax, c, l) ==
